@@ -78,6 +78,52 @@ def ctor_role_rules(run, db, rule='C02.freespace'):
         run.ok(rule, 'prysm.propagation.Wavefront', '%d Wavefront(...) constructions pass wavelength and dx in their own slots' % ncalls)
 
 
+def inverse_rules(run, db):
+    """focus and unfocus are mutually inverse for every shape: in ORIGIN, for even and odd lengths, whatever typestate (origin index,
+    phase ramp) focus gives a centred field, unfocus must turn back into a centred field without ramp -- and the other way round."""
+    P_ = 'prysm.propagation.'
+
+    def dom_for(parity):
+        dom = OriginDomain(parity)
+
+        def call_prysm(fi, args, kwargs, node, dom=dom):
+            if fi.qual in ('prysm.fttools.pad2d', 'prysm.fttools.crop_center'):
+                a = args[0] if args else kwargs.get('array', kwargs.get('img'))
+                if isinstance(a, Og):
+                    if a.o == ohalf(dom.p):
+                        return a          # zero padding about n//2 keeps a centred array centred (C04)
+                    return Unknown('pad of a non-centred array')
+            return None
+        dom.call_prysm = call_prysm
+        return dom
+    for first, second in (('focus', 'unfocus'), ('unfocus', 'focus')):
+        f1, f2 = db.func(P_ + first), db.func(P_ + second)
+        for parity in (0, 1):
+            par = 'odd' if parity else 'even'
+            dom = dom_for(parity)
+            it = Interp(db, dom)
+            mids = [p.value for p in it.run(f1, kwargs=lambda: {'wavefunction': dom.centred(), 'Q': Real()}) if p.outcome == 'return']
+            if not mids or not all(isinstance(v, Og) for v in mids):
+                raise AnalysisError('%s: result has no origin typestate [%s]' % (f1.qual, par))
+            seen = set()
+            for mid in mids:
+                if (mid.o, mid.r) in seen:
+                    continue
+                seen.add((mid.o, mid.r))
+                outs = [p.value for p in it.run(f2, kwargs=lambda: {'wavefunction': Og(mid.o, mid.r, mid.kind), 'Q': Real()}) if p.outcome == 'return']
+                if not outs:
+                    raise AnalysisError('%s: no returning path [%s]' % (f2.qual, par))
+                for v in outs:
+                    if not isinstance(v, Og):
+                        # the second leg could not follow what the first produced (e.g. padding an array that is not centred)
+                        ok, got = False, 'something that is no longer an array with its origin at one index (%r)' % (v,)
+                    else:
+                        ok, got = (v.o == ohalf(parity) and v.r.is_zero()), 'origin %r, phase ramp %r' % (v.o, v.r)
+                    run.check(ok, 'C02.ortho', f2.qual, '%s after %s [%s]' % (second, first, par), '%s(%s(f)) has the origin of f and no phase ramp, %s lengths' % (second, first, par),
+                              '%s(%s(f)) of a centred f gives %s for %s lengths (expected origin n//2 = %r, no ramp): the two are not inverse, the round trip returns a shifted / phase-ramped copy'
+                              % (second, first, got, par, ohalf(parity)), f2.loc())
+
+
 def ortho_rules(run, db):
     seen = {}
     for name, direction in (('focus', 'fft2'), ('unfocus', 'ifft2')):
@@ -240,6 +286,7 @@ def check(run, db, tier):
     run.rule('C02.norm', 'matrix-DFT / chirp-Z normalisation is sqrt(1/(N Q)) per axis; the chirp-Z factors, per-axis FFT work lengths and crops are those of the same unitary kernel (shared with C01.chirp/.axis)')
     run.rule('C02.freespace', 'free-space transfer function: unit modulus, phase linear-homogeneous in z, -i pi lambda z k^2; angular_spectrum == ifft2(fft2(field)*tf)')
     run.group(ortho_rules, run, db)
+    run.group(inverse_rules, run, db)
     proxy = Proxy(run, {'C01.kernel': 'C02.kernel', 'C01.norm': 'C02.norm', 'C01.chirp': 'C02.norm', 'C01.axis': 'C02.norm'})
     run.group(c01.mdft_rules, proxy, db)
     run.group(c01.czt_rules, proxy, db)
